@@ -28,7 +28,7 @@ try:
         sys.exit(2)
     res = {}
     for c in checks:
-        env = dict(os.environ, VERIF_REPO=wt)
+        env = dict(os.environ, VERIF_REPO=wt, VERIF_REPLAYS="/dev/shm/seed-replays")
         p = subprocess.run([os.path.join(V, "check"), c, "--tier", a.tier, "--no-evidence"], env=env, capture_output=True, text=True, cwd=V)
         lines = [l for l in p.stdout.splitlines() if l.startswith("VIOLATION") or l.startswith("check ") or l.startswith("KNOWN")]
         err = [l for l in p.stderr.splitlines() if l.startswith("CHECK-ERROR")]
